@@ -86,7 +86,8 @@ func (g *G) Intn(n int) int {
 func (g *G) Chance(p float64) bool { return g.R.Float64() < p }
 func Pick[T any](g *G, xs []T) T  { return xs[g.Intn(len(xs))] }
 
-var objTypeNames = []string{"group", "folder", "doc", "org"}
+// ("doc2" and "org-unit" extend another type's name with a byte that sorts before ':')
+var objTypeNames = []string{"group", "folder", "doc", "org", "doc2", "org-unit"}
 var relNames = []string{"member", "owner", "viewer", "editor", "admin", "blocked", "can_view"}
 var tuplesetNames = []string{"parent", "container"}
 var userIDs = []string{"a", "b", "c"}
